@@ -85,9 +85,15 @@ func verifXAStatus(s xdsresource.ServiceStatus) string {
 	return "unknown"
 }
 
-// VerifXAAuthState reads authority.resources / xdsChannelConfigs / activeXDSChannel.
-func VerifXAAuthState(c *XDSClient) VerifXAAuth {
+// VerifXAAuthState reads authority.resources / xdsChannelConfigs / activeXDSChannel of the top-level authority.
+func VerifXAAuthState(c *XDSClient) VerifXAAuth { return VerifXAAuthStateOf(c, "") }
+
+// VerifXAAuthStateOf does the same for the authority `name` of Config.Authorities ("" = top-level).
+func VerifXAAuthStateOf(c *XDSClient, name string) VerifXAAuth {
 	a := c.topLevelAuthority
+	if name != "" {
+		a = c.authorities[name]
+	}
 	out := VerifXAAuth{Active: -1}
 	idx := map[*xdsChannelWithConfig]int{}
 	for i, cfg := range a.xdsChannelConfigs {
@@ -233,4 +239,52 @@ func VerifXAChannelFlow(c *XDSClient, uri string) (exists bool, refs int, pendin
 		}
 	}
 	return false, 0, false
+}
+
+// VerifXAChan is the client-level channel to one server (shared by the authorities that reference it).
+type VerifXAChan struct {
+	Exists  bool
+	Refs    []string // names of the interested authorities ("" = top-level)
+	Pending bool     // adsFlowControl.pending
+	Subs    []VerifXASub
+}
+
+// VerifXAChannel reads XDSClient.xdsActiveChannels for the server with this URI.
+func VerifXAChannel(c *XDSClient, uri string) VerifXAChan {
+	c.channelsMu.Lock()
+	defer c.channelsMu.Unlock()
+	for sc, st := range c.xdsActiveChannels {
+		if sc.ServerIdentifier.ServerURI != uri {
+			continue
+		}
+		out := VerifXAChan{Exists: true}
+		for a := range st.interestedAuthorities {
+			out.Refs = append(out.Refs, a.name)
+		}
+		sort.Strings(out.Refs)
+		ads := st.channel.ads
+		ads.fc.mu.Lock()
+		out.Pending = ads.fc.pending
+		ads.fc.mu.Unlock()
+		ads.mu.Lock()
+		for rt, ts := range ads.resourceTypeState {
+			for name, ws := range ts.subscribedResources {
+				stt := "?"
+				switch ws.State {
+				case xdsresource.ResourceWatchStateStarted:
+					stt = "started"
+				case xdsresource.ResourceWatchStateRequested:
+					stt = "requested"
+				case xdsresource.ResourceWatchStateReceived:
+					stt = "received"
+				case xdsresource.ResourceWatchStateTimeout:
+					stt = "timeout"
+				}
+				out.Subs = append(out.Subs, VerifXASub{Type: rt.TypeURL, Name: name, State: stt, Timer: ws.ExpiryTimer != nil})
+			}
+		}
+		ads.mu.Unlock()
+		return out
+	}
+	return VerifXAChan{}
 }
